@@ -186,7 +186,13 @@ mod invalid {
                 r[cst_col] = c;
             }
         }
-        let y: Vec<f64> = (0..ylen as usize).map(|i| ((i * 3 + 1) % 4) as f64 - 1.0).collect();
+        // targets: a varying pattern, or exactly constant (0, 2.5) — an invalid setting must be reported
+        // whatever the data are, also when the fit could take a "nothing to do" shortcut
+        let ypat = mc::choose(3);
+        let y: Vec<f64> = (0..ylen as usize).map(|i| match ypat { 0 => ((i * 3 + 1) % 4) as f64 - 1.0, 1 => 0.0, _ => 2.5 }).collect();
+        if ypat != 0 {
+            mc::count("invalid_grid_constant_target");
+        }
         let mut bad: Vec<&str> = Vec::new();
         if alpha < 0.0 {
             bad.push("alpha-negative");
